@@ -89,6 +89,22 @@ def source_parity(ctx, rep, clause):
     program = ctx.program
     a = C02.term_sources(program.func(MASS), 'mod_mass', None, program)
     b = C02.term_sources(program.func(SEQ_COMP), 'mod_comp', None, program)
+    # a source the provenance analysis does not find, although the field it comes from does reach the calculator's
+    # result (slice of the returned value): the calculator is written in a form this rule does not read -- that is not
+    # a witness of a calculator ignoring the source
+    from .common import ret_tags
+    an = ctx.analyzer
+    tags = {MASS: ret_tags(an, MASS), SEQ_COMP: ret_tags(an, SEQ_COMP)}
+    for kind in C02.SOURCE_KINDS:
+        fld = 'static_mods' if kind.startswith('static rule') else kind
+        for fq, found in ((MASS, a), (SEQ_COMP, b)):
+            # the three static kinds share one field: only when none of them is recognised is the form unread (one of
+            # them missing while the others are found is an omission)
+            if kind.startswith('static rule') and any(k.startswith('static rule') for k in found):
+                continue
+            if kind not in found and fld in tags[fq]:
+                raise AnalysisError(f'{fq}: modifications from {kind} reach the result (field {fld} is in the slice of '
+                                    f'the returned value) but the term that adds them was not recognised')
     for kind in C02.SOURCE_KINDS:
         ob(rep, 'SIB-source', MASS if kind not in a else SEQ_COMP, f'both calculators resolve modifications from {kind}',
            kind in a and kind in b, f'mass: {len(a.get(kind, []))} site(s), composition: {len(b.get(kind, []))} site(s)',
